@@ -134,7 +134,7 @@ class ReactionQueryReader(object):
 
         self.electronbalance[idx1] += balance
         self.electronbalance[idx2] += balance
-        reactionquery.transformations.append(BondBreak(idx1, idx2))
+        reactionquery.transformations.append(BondBreak(idx1, idx2, bondtype))
 
     def ReadBondModify(self, tree, reactionquery):
         try:
@@ -185,7 +185,8 @@ class ReactionQueryReader(object):
         bondtype, balance = self.ReadBondType(tree[2][1:])
         self.electronbalance[idx1] -= balance - balance1
         self.electronbalance[idx2] -= balance - balance1
-        reactionquery.transformations.append(BondModify(idx1, idx2, bondtype))
+        reactionquery.transformations.append(BondModify(idx1, idx2, bondtype,
+                                                        bond.GetBondType()))
 
     def ReadBondIncrease(self, tree, reactionquery):
         try:
@@ -324,7 +325,8 @@ class ReactionQueryReader(object):
                                   + tree[0][1] + "' open; the electron",
                                   "balance cannot be checked")
         self.electronbalance[idx] -= radical - declared
-        reactionquery.transformations.append(RadicalModify(idx, radical))
+        reactionquery.transformations.append(RadicalModify(idx, radical,
+                                                           declared))
 
     def ReadRadicalIncrease(self, tree, reactionquery):
         assert tree[0][0] == 'AtomLabel'
